@@ -184,7 +184,8 @@ func CheckPairs(run *report.Run, ps PairSpec, stream string, pairs []*PairCase) 
 			known = ps.Known(p)
 		}
 		if applies && p.Same != "1" {
-			if known != "" {
+			// a listed finding is one the model reproduces on both members of the pair
+			if known != "" && p.A.RealS == p.A.ModelS && p.B.RealS == p.B.ModelS {
 				run.KnownHits[known]++
 			} else if bad < 3 {
 				bad++
